@@ -88,7 +88,7 @@ class Scheduler:
         return [self.threads[t] for t in self.order if self.threads[t].state == "ready"]
 
     # ------------------------------------------------------------------ choosing
-    def _choose(self, cur, candidates, forced):
+    def _choose(self, cur, candidates, forced, what="line"):
         """Pick the next thread among `candidates` (all ready). `cur` may be None (blocked / finished)."""
         step = self.steps
         if self.replay is not None:
@@ -101,6 +101,14 @@ class Scheduler:
                 return cur
             return candidates[0]
         k = self.strategy["kind"]
+        if k == "race":
+            # race-directed: pre-empt mostly around accesses to shared mutable fields (right before a write, sometimes
+            # right before a read), rarely elsewhere
+            p = self.strategy["p_set"] if what.startswith(("set:", "setitem:", "pop:", "setdefault:")) else self.strategy["p_get"] if what.startswith(("get:", "getitem:", "contains:")) else self.strategy["p_line"]
+            if cur is not None and cur in candidates and self.rng.random() >= p:
+                return cur
+            others = [c for c in candidates if c is not cur] or candidates
+            return self.rng.choice(others)
         if k == "random":
             if cur is not None and cur in candidates and self.rng.random() >= self.strategy["p"]:
                 return cur
@@ -130,7 +138,7 @@ class Scheduler:
         self.steps += 1
         if self.steps > self.max_steps:
             self._fail(StepLimit(f"more than {self.max_steps} yield points"))
-        nxt = self._choose(cur, self.runnable(), False)
+        nxt = self._choose(cur, self.runnable(), False, what)
         if nxt is not cur:
             self._switch(cur, nxt)
 
@@ -403,6 +411,45 @@ class YDict(dict):
         return super().pop(*a)
 
 
+def _yielding_class(sched, cls):
+    """Every read and write of ANY instance attribute of `cls` objects becomes a yield point (also attributes a change to
+    labrea adds later: memo fields, scratch fields).  Returns an undo function."""
+    had_get = "__getattribute__" in vars(cls)
+    had_set = "__setattr__" in vars(cls)
+    old_get = vars(cls).get("__getattribute__")
+    old_set = vars(cls).get("__setattr__")
+    base_get = cls.__getattribute__
+    base_set = cls.__setattr__
+
+    def __getattribute__(self, name):
+        if name[:2] != "__":
+            d = object.__getattribute__(self, "__dict__")
+            if name in d:
+                sched.yield_point("get:" + name)
+        return base_get(self, name)
+
+    def __setattr__(self, name, value):
+        sched.yield_point("set:" + name)
+        if name == "_cache" and type(value) is dict:
+            value = YDict(sched, name, value)
+        base_set(self, name, value)
+
+    cls.__getattribute__ = __getattribute__
+    cls.__setattr__ = __setattr__
+
+    def undo():
+        if had_get:
+            cls.__getattribute__ = old_get
+        else:
+            del cls.__getattribute__
+        if had_set:
+            cls.__setattr__ = old_set
+        else:
+            del cls.__setattr__
+
+    return undo
+
+
 SHARED_ATTRS = [
     ("labrea.overload", "Overloaded", ["lookup", "dispatch", "default"]),
     ("labrea.runtime", "Runtime", ["handlers", "previous"]),
@@ -437,14 +484,12 @@ class installed:
         self.locks = dict(lov._LOCKS)
         lov._LOCKS.clear()
         self.descr = []
+        self.undo = []
         self.dicts = []
         if s.granularity == "shared":
             for modname, clsname, names in SHARED_ATTRS:
                 cls = getattr(sys.modules[modname], clsname)
-                for n in names:
-                    d = YieldAttr(s, cls, n, wrap_dict=(n == "_cache"))
-                    self.descr.append(d)
-                    setattr(cls, n, d)
+                self.undo.append(_yielding_class(s, cls))
             for modname, names in SHARED_DICTS:
                 mod = sys.modules[modname]
                 for n in names:
@@ -455,6 +500,8 @@ class installed:
         return s
 
     def __exit__(self, *a):
+        for u in self.undo:
+            u()
         for d in self.descr:
             if d.had:
                 setattr(d.cls, d.name, d.old)
